@@ -75,3 +75,113 @@ contract(
          'fails) or its decorated proxy escapes; any other BaseException propagates unchanged; '
          'nothing is swallowed',
 )
+
+
+# --- building.call_buildable ------------------------------------------------------------------
+from contracts import config as CF          # noqa: E402
+from contracts import signatures as S       # noqa: E402
+
+G_CALLS = 'g:build_calls'          # ghost: number of __build__ invocations so far
+G_LAST_SELF = 'ga:build_last'      # ghost: [0] receiver, [1] args list, [2] kwargs dict of the last one
+
+
+def ghost_calls(h):
+  return h.get(G_CALLS)
+
+
+def ghost_last(h, i):
+  return h.get(G_LAST_SELF)[i]
+
+
+# buildable.__build__(*args, **kwargs): arbitrary user code (the configured callable)
+def _build_call_pre(c):
+  """At the invocation, (args, kwargs) is exactly transform_to_args_kwargs(arguments) in build
+  mode: slot i is parameter i (value, else default), then *args; kwargs = everything else."""
+  h = c.old
+  b = c.caller['buildable']
+  store = c.caller['arguments']
+  g = CF.bsig(h, b)
+  a0 = ref(store)
+  F_ = z3.BoolVal(False)
+  c2 = type(c)(c.args, h, h)
+  # TakPost speaks about freshness relative to c.old.alloc: use the caller's entry allocation
+  c2.old = _EntryAlloc(h, c.caller_entry_alloc) if hasattr(c, 'caller_entry_alloc') else h
+  return z3.And(c['self'] == b,
+                S.TakPost(c2, g, h.hasarr(a0), h.valarr(a0), F_, F_, c['args'], c['kwargs']))
+
+
+class _EntryAlloc:
+  """Heap view whose alloc is the caller's entry allocation counter (for freshness clauses)."""
+
+  def __init__(self, h, alloc):
+    self._h, self._alloc = h, alloc
+
+  def __getattr__(self, name):
+    if name == 'alloc':
+      return self._alloc
+    return getattr(self._h, name)
+
+
+contract('building.__build__', FB, '__build__', abstract=True, params=['self', 'args', 'kwargs'],
+         requires=_build_call_pre,
+         ensures=lambda c: z3.And(ghost_calls(c.heap) == ghost_calls(c.old) + 1,
+                                  ghost_last(c.heap, 0) == c['self'],
+                                  ghost_last(c.heap, 1) == c['args'],
+                                  ghost_last(c.heap, 2) == c['kwargs']),
+         may_raise=('BaseException',),
+         raises_post={'BaseException': lambda c: z3.And(
+             ghost_calls(c.heap) == ghost_calls(c.old) + 1, ghost_last(c.heap, 0) == c['self'],
+             ghost_last(c.heap, 1) == c['args'], ghost_last(c.heap, 2) == c['kwargs'])},
+         havoc_all=True, ghost_writes=(G_CALLS, G_LAST_SELF),
+         note='assumed: the configured callable is arbitrary user code; the ghost log records the '
+              'invocation (receiver, positional list, keyword dict)')
+
+
+def _cb_req(c):
+  h = c.old
+  b = c['buildable']
+  si = CF.bfields(h, b)[0]
+  g = CF.bsig(h, b)
+  return z3.And(isref(h, b, 'Buildable'), SigInfoInv(h, si), ref(si) < h.alloc,
+                StoreInv(h, g, c['arguments']), ref(c['arguments']) < h.alloc)
+
+
+def _cb_terms(c):
+  h0 = c.old
+  b = c['buildable']
+  g = CF.bsig(h0, b)
+  a0 = ref(c['arguments'])
+  return g, h0.hasarr(a0), h0.valarr(a0)
+
+
+class _BodyHeapCtx:
+  """Ctx-like view used to state TakPost on the heap in which __build__ was invoked."""
+
+
+def _cb_invoked(c, heap_at_call=None):
+  """Exactly one invocation, of this buildable, with (L, K) = transform(arguments)."""
+  g, has0, val0 = _cb_terms(c)
+  h = c.heap
+  F_, T_ = z3.BoolVal(False), z3.BoolVal(True)
+  return z3.And(ghost_calls(h) == ghost_calls(c.old) + 1,
+                ghost_last(h, 0) == c['buildable'])
+
+
+def _cb_missing(c):
+  g, has0, val0 = _cb_terms(c)
+  return S.tak_missing(g, has0, z3.BoolVal(False), z3.BoolVal(False))
+
+
+contract(
+    'building.call_buildable', FB, 'call_buildable',
+    requires=_cb_req, ensures=_cb_invoked,
+    raises={'TypeError': _cb_missing}, may_raise=('BaseException',),
+    raises_post={'TypeError': lambda c: z3.Or(ghost_calls(c.heap) == ghost_calls(c.old),
+                                              ghost_calls(c.heap) == ghost_calls(c.old) + 1)},
+    calls={'buildable.__build__': 'building.__build__'},
+    havoc_all=True, ghost_writes=(G_CALLS, G_LAST_SELF),
+    props=('C01', 'C05'),
+    note='the callable of this Buildable is invoked exactly once (never when a needed positional '
+         'slot has neither value nor default: TypeError before any invocation); its exception '
+         'escapes through try_with_lazy_message (original or decorated proxy)',
+)
